@@ -20,10 +20,16 @@ type containsEv struct {
 
 const c09Scale = 4.0
 
+// c09Off translates the whole configuration (ring and query points) in the real call; the events keep the
+// untranslated lattice coordinates, the predicate being translation invariant. All sums are exact in float64.
+var c09Off [2]float64
+
+var c09Offsets = [][2]float64{{0, 0}, {16384, 16384}, {500000, 4000000}, {1 << 20, -(1 << 22)}, {-(1 << 30), 1 << 30}, {1 << 40, 1 << 40}, {0.25, -1e6}}
+
 func c09Ring(r [][2]int) orb.Ring {
 	out := make(orb.Ring, len(r))
 	for i, p := range r {
-		out[i] = orb.Point{float64(p[0]) / c09Scale, float64(p[1]) / c09Scale}
+		out[i] = orb.Point{float64(p[0])/c09Scale + c09Off[0], float64(p[1])/c09Scale + c09Off[1]}
 	}
 	return out
 }
@@ -42,7 +48,7 @@ func c09Run(c *ctx, fn string, mp [][][][2]int, q [][2]int) {
 	ones := 0
 	site := guard(func() {
 		for _, qp := range q {
-			pt := orb.Point{float64(qp[0]) / c09Scale, float64(qp[1]) / c09Scale}
+			pt := orb.Point{float64(qp[0])/c09Scale + c09Off[0], float64(qp[1])/c09Scale + c09Off[1]}
 			var in bool
 			switch fn {
 			case "ring":
@@ -89,6 +95,7 @@ func init() {
 		for a := 0; a < 16; a++ {
 			for b := 0; b < 16; b++ {
 				for d := 0; d < 16; d++ {
+					c09Off = c09Offsets[(a+3*b+5*d)%len(c09Offsets)]
 					c09Run(c, "ring", [][][][2]int{{{grid(a), grid(b), grid(d)}}}, q49)
 				}
 			}
@@ -96,11 +103,13 @@ func init() {
 		// (2) every 4-vertex ring (65 536): all in the thorough tier, a seeded sample in quick.
 		if c.thorough() {
 			for i := 0; i < 65536; i++ {
+				c09Off = c09Offsets[i%len(c09Offsets)]
 				c09Run(c, "ring", [][][][2]int{{{grid(i & 15), grid((i >> 4) & 15), grid((i >> 8) & 15), grid(i >> 12)}}}, q49)
 			}
 		} else {
 			for n := 0; n < 4096; n++ {
 				i := c.rng.Intn(65536)
+				c09Off = c09Offsets[c.rng.Intn(len(c09Offsets))]
 				c09Run(c, "ring", [][][][2]int{{{grid(i & 15), grid((i >> 4) & 15), grid((i >> 8) & 15), grid(i >> 12)}}}, q49)
 			}
 		}
@@ -131,6 +140,7 @@ func init() {
 			variants = append(variants, rev)
 			closed := append(append([][2]int{}, r...), r[0])
 			variants = append(variants, closed)
+			c09Off = c09Offsets[c.rng.Intn(len(c09Offsets))] // every variant of one ring at the same place
 			for _, v := range variants {
 				c09Run(c, "ring", [][][][2]int{{v}}, q)
 			}
@@ -159,6 +169,7 @@ func init() {
 				}
 				mp = append(mp, poly)
 			}
+			c09Off = c09Offsets[c.rng.Intn(len(c09Offsets))]
 			c09Run(c, "mpoly", mp, q)
 			c09Run(c, "poly", mp[:1], q)
 		}
